@@ -3,7 +3,9 @@
    initial_graphs_generator.py (InitialPopulationGenerator.__call__).  Definitions only.
 
    Randomness is explicit: every attempt of random_graph consumes a list of naturals (missing
-   choices read as 0): a name draw per node (index into the available node types), an arity
+   choices read as 0): a draw per node_factory.get_node() call (index into the available node
+   types; a `partial` factory answers None for the draw 0 - the attempt is lost when that is the
+   root, the offspring slot is skipped otherwise), an arity
    draw per grown node (randint(min_arity, max_arity) = min + c mod (max - min + 1); ValueError
    when the range is empty) and a growth coin per node that is allowed to grow.
    The produced graph is a tree (every node is fresh): children = nodes_from in creation order.
@@ -46,30 +48,43 @@ Definition arity_ok (rq : req) (t : tree) : bool :=
 Definition draw (cs : list nat) : nat * list nat :=
   match cs with [] => (0, []) | c :: cs' => (c, cs') end.
 
+(* node_factory.get_node() as a function of the draw *)
+Definition get_node (partial : bool) (ntypes c : nat) : option nat :=
+  if partial then match c with 0 => None | S c' => Some (c' mod ntypes) end
+  else Some (c mod ntypes).
+
+(* only the upper arity bound (what remains true for a partial node factory) *)
+Definition arity_upper_ok (rq : req) (t : tree) : bool :=
+  tree_all (fun _ kids => length kids <=? max_arity rq) t.
+
 (* the loop `for offspring_node in range(offspring_size)` of graph_growth: n new nodes at a
    height where growing further is allowed or not; rec = graph_growth on the new node *)
-Fixpoint offspring (rec : list nat -> res (list tree * list nat)) (may_grow : bool)
+Fixpoint offspring (rec : list nat -> res (list tree * list nat)) (may_grow partial : bool)
          (ntypes n : nat) (cs : list nat) : res (list tree * list nat) :=
   match n with
   | 0 => Ok ([], cs)
   | S n' =>
-      let '(nm, cs1) := draw cs in
-      let sub := if may_grow
-                 then (let '(coin, cs2) := draw cs1 in
-                       if coin =? 0 then Ok ([], cs2) else rec cs2)
-                 else Ok ([], cs1) in
-      match sub with
-      | Raise e => Raise e
-      | Ok (kids, cs3) =>
-          match offspring rec may_grow ntypes n' cs3 with
+      let '(c, cs1) := draw cs in
+      match get_node partial ntypes c with
+      | None => offspring rec may_grow partial ntypes n' cs1          (* if node is None: continue *)
+      | Some nm =>
+          let sub := if may_grow
+                     then (let '(coin, cs2) := draw cs1 in
+                           if coin =? 0 then Ok ([], cs2) else rec cs2)
+                     else Ok ([], cs1) in
+          match sub with
           | Raise e => Raise e
-          | Ok (rest, cs4) => Ok (T (nm mod ntypes) kids :: rest, cs4)
+          | Ok (kids, cs3) =>
+              match offspring rec may_grow partial ntypes n' cs3 with
+              | Raise e => Raise e
+              | Ok (rest, cs4) => Ok (T nm kids :: rest, cs4)
+              end
           end
       end
   end.
 
 (* graph_growth(graph, node_parent at `height`, ...): the parents (children in the tree) it adds *)
-Fixpoint growth (fuel : nat) (rq : req) (md ntypes height : nat) (cs : list nat)
+Fixpoint growth (fuel : nat) (rq : req) (md : nat) (partial : bool) (ntypes height : nat) (cs : list nat)
   : res (list tree * list nat) :=
   match fuel with
   | 0 => Raise OutOfFuel
@@ -79,43 +94,51 @@ Fixpoint growth (fuel : nat) (rq : req) (md ntypes height : nat) (cs : list nat)
         let '(a, cs1) := draw cs in
         let n := min_arity rq + a mod (max_arity rq - min_arity rq + 1) in
         (* is_max_depth_exceeded = height(child) >= max_depth - 1 *)
-        offspring (growth k rq md ntypes (S height)) (negb (md - 1 <=? S height)) ntypes n cs1
+        offspring (growth k rq md partial ntypes (S height)) (negb (md - 1 <=? S height)) partial ntypes n cs1
   end.
 
 (* max_depth = max_depth if max_depth else requirements.max_depth *)
 Definition eff_depth (rq : req) (arg : option nat) : nat :=
   match arg with Some (S m) => S m | _ => max_depth rq end.
 
-(* one iteration of the while loop: a root and, if requirements.max_depth > 1, its growth *)
-Definition attempt (rq : req) (md ntypes : nat) (cs : list nat) : res tree :=
-  let '(nm, cs1) := draw cs in
-  if 1 <? max_depth rq then
-    match growth (S md) rq md ntypes 0 cs1 with
-    | Ok (kids, _) => Ok (T (nm mod ntypes) kids)
-    | Raise e => Raise e
-    end
-  else Ok (T (nm mod ntypes) []).
+(* one iteration of the while loop: a root and, if requirements.max_depth > 1, its growth;
+   None = the node factory gave no root *)
+Definition attempt (rq : req) (md : nat) (partial : bool) (ntypes : nat) (cs : list nat) : res (option tree) :=
+  let '(c, cs1) := draw cs in
+  match get_node partial ntypes c with
+  | None => Ok None
+  | Some nm =>
+      if 1 <? max_depth rq then
+        match growth (S md) rq md partial ntypes 0 cs1 with
+        | Ok (kids, _) => Ok (Some (T nm kids))
+        | Raise e => Raise e
+        end
+      else Ok (Some (T nm []))
+  end.
 
 (* the while loop; returns the outcome and the number of attempts made (n_iter) *)
-Fixpoint rg_loop (fuel : nat) (V : tree -> bool) (rq : req) (md ntypes max_attempts n_iter : nat)
-         (attempts : list (list nat)) : res tree * nat :=
+Fixpoint rg_loop (fuel : nat) (V : tree -> bool) (rq : req) (md : nat) (partial : bool)
+         (ntypes max_attempts n_iter : nat) (attempts : list (list nat)) : res tree * nat :=
   match fuel with
   | 0 => (Raise OutOfFuel, n_iter)
   | S k =>
-      match attempt rq md ntypes (hd [] attempts) with
+      match attempt rq md partial ntypes (hd [] attempts) with
       | Raise e => (Raise e, n_iter)
-      | Ok t =>
-          let ok := V t in
+      | Ok ot =>
+          (* is_correct_graph = graph_root is not None and verifier(graph) *)
           let n := S n_iter in
           if max_attempts <? n then (Raise ValueError, n)
-          else if ok then (Ok t, n)
-          else rg_loop k V rq md ntypes max_attempts n (tl attempts)
+          else match ot with
+               | Some t => if V t then (Ok t, n)
+                           else rg_loop k V rq md partial ntypes max_attempts n (tl attempts)
+               | None => rg_loop k V rq md partial ntypes max_attempts n (tl attempts)
+               end
       end
   end.
 
-Definition random_graph (V : tree -> bool) (rq : req) (arg : option nat) (ntypes max_attempts : nat)
-           (attempts : list (list nat)) : res tree * nat :=
-  rg_loop (S (S max_attempts)) V rq (eff_depth rq arg) ntypes max_attempts 0 attempts.
+Definition random_graph (V : tree -> bool) (rq : req) (arg : option nat) (partial : bool)
+           (ntypes max_attempts : nat) (attempts : list (list nat)) : res tree * nat :=
+  rg_loop (S (S max_attempts)) V rq (eff_depth rq arg) partial ntypes max_attempts 0 attempts.
 
 Definition MAX_GRAPH_GEN_ATTEMPTS : nat := 1000.
 
@@ -208,7 +231,10 @@ Definition veval (v : vkind) (t : tree) : bool :=
 
 (* ------------------------------------------------------------------ observations: random_graph *)
 Record fobs := mkFObs {
-  f_attempts : list tree;          (* every graph the verifier was shown, in order *)
+  f_attempts : list (option tree); (* every attempt in order: the graph the verifier was shown, or
+                                      None when the node factory gave no root *)
+  f_choices : list (list nat);     (* partial factory only: choices explaining every attempt, found
+                                      by the harness from the factory's call log *)
   f_result : option tree;          (* the returned graph; None = ValueError *)
   f_accepted : bool;               (* verifier(returned graph), evaluated again by the harness *)
   f_depth : nat;                   (* returned graph.depth *)
@@ -230,17 +256,27 @@ Fixpoint infer_kids (fuel : nat) (rq : req) (md height : nat) (kids : list tree)
 Definition infer (rq : req) (md : nat) (t : tree) : list nat :=
   tname t :: (if 1 <? max_depth rq then infer_kids (S (tdepth t)) rq md 0 (tkids t) else []).
 
+Fixpoint all2 {A B} (p : A -> B -> bool) (l : list A) (r : list B) : bool :=
+  match l, r with
+  | [], [] => true
+  | a :: l', b :: r' => p a b && all2 p l' r'
+  | _, _ => false
+  end.
+
 Definition opt_tree_same (a b : option tree) : bool :=
   match a, b with Some x, Some y => tree_same x y | None, None => true | _, _ => false end.
 
-(* model = implementation: replaying the inferred choices of every observed attempt gives the
-   same attempt trees, the same outcome after the same number of attempts *)
-Definition f_agree (v : vkind) (rq : req) (arg : option nat) (ntypes : nat) (o : fobs) : bool :=
+(* model = implementation: replaying the choices of every observed attempt (inferred here for a
+   total factory, supplied for a partial one) gives the same attempt trees, the same outcome
+   after the same number of attempts *)
+Definition f_agree (v : vkind) (rq : req) (arg : option nat) (partial : bool) (ntypes : nat) (o : fobs) : bool :=
   let md := eff_depth rq arg in
-  let cs := map (infer rq md) (f_attempts o) in
-  forallb (fun t => match attempt rq md ntypes (infer rq md t) with
-                    | Ok t' => tree_same t t' | Raise _ => false end) (f_attempts o) &&
-  match random_graph (veval v) rq arg ntypes MAX_GRAPH_GEN_ATTEMPTS cs with
+  let cs := if partial then f_choices o
+            else map (fun ot => match ot with Some t => infer rq md t | None => [] end) (f_attempts o) in
+  (length cs =? length (f_attempts o)) &&
+  all2 (fun ot c => match attempt rq md partial ntypes c with
+                    | Ok ot' => opt_tree_same ot ot' | Raise _ => false end) (f_attempts o) cs &&
+  match random_graph (veval v) rq arg partial ntypes MAX_GRAPH_GEN_ATTEMPTS cs with
   | (Ok t, n) => opt_tree_same (Some t) (f_result o) && (n =? length (f_attempts o)) &&
                  (tdepth t =? f_depth o) && list_eqb (preorder t) (f_nodes o) && f_accepted o
   | (Raise ValueError, n) => opt_tree_same None (f_result o) && (n =? length (f_attempts o))
@@ -250,10 +286,11 @@ Definition f_agree (v : vkind) (rq : req) (arg : option nat) (ntypes : nat) (o :
 (* the property on the observed outcome: a returned graph is accepted by the verifier, within
    the depth bound (both the depth GOLEM reports and the depth of the observed structure) and
    within the arity bounds; a ValueError only after the attempt limit *)
-Definition f_holds (rq : req) (arg : option nat) (o : fobs) : bool :=
+Definition f_holds (rq : req) (arg : option nat) (partial : bool) (o : fobs) : bool :=
   match f_result o with
   | Some t => f_accepted o && (f_depth o <=? depth_bound rq arg) && (tdepth t <=? depth_bound rq arg) &&
-              arity_ok rq t && (length (f_attempts o) <=? MAX_GRAPH_GEN_ATTEMPTS)
+              (if partial then arity_upper_ok rq t else arity_ok rq t) &&
+              (length (f_attempts o) <=? MAX_GRAPH_GEN_ATTEMPTS)
   | None => (max_arity rq <? min_arity rq) || (MAX_GRAPH_GEN_ATTEMPTS <? length (f_attempts o))
   end.
 
@@ -269,13 +306,6 @@ Record pobs := mkPObs {
 
 Definition gen_of (l : list tree) (i : nat) : res tree :=
   match nth_error l i with Some t => Ok t | None => Raise ValueError end.
-
-Fixpoint all2 {A} (p : A -> A -> bool) (l r : list A) : bool :=
-  match l, r with
-  | [], [] => true
-  | a :: l', b :: r' => p a b && all2 p l' r'
-  | _, _ => false
-  end.
 
 Fixpoint pairs_eq (l : list tree) : list bool :=
   match l with
@@ -302,7 +332,7 @@ Definition p_agree (v : vkind) (pop_size : nat) (o : pobs) : bool :=
 
 (* the property on the observed population: all accepted, pairwise not equal, at most pop_size
    many, every graph within the depth and arity bounds *)
-Definition p_holds (rq : req) (pop_size : nat) (o : pobs) : bool :=
+Definition p_holds (rq : req) (partial : bool) (pop_size : nat) (o : pobs) : bool :=
   match p_result o with
   | Some pop =>
       (length pop <=? pop_size) && (length (p_accepted o) =? length pop) &&
@@ -310,6 +340,7 @@ Definition p_holds (rq : req) (pop_size : nat) (o : pobs) : bool :=
       (length (p_equal_pairs o) =? length pop * (length pop - 1) / 2) &&
       forallb negb (p_equal_pairs o) &&
       forallb (fun d => d <=? depth_bound rq None) (p_depths o) && (length (p_depths o) =? length pop) &&
-      forallb (fun t => (tdepth t <=? depth_bound rq None) && arity_ok rq t) pop
+      forallb (fun t => (tdepth t <=? depth_bound rq None) &&
+                        (if partial then arity_upper_ok rq t else arity_ok rq t)) pop
   | None => p_raised o
   end.
